@@ -219,3 +219,65 @@ pub fn untracked_alphabet(p: &Program) -> Vec<Op> {
     }
     a
 }
+
+// ------------------------------------------------------------------------------------------------
+// cyclic programs (bit-set lattice over 3 bits)
+
+/// a <-> b two-cycle with input masks
+pub fn cyc2(kind: Kind) -> Program {
+    Program {
+        name: format!("cyc2-{kind:?}"),
+        cells: vec![(1, Dur::Low), (0, Dur::Low)],
+        nodes: vec![
+            NodeDef::new(kind, Ex::or(call(1), cell(0))),
+            NodeDef::new(kind, Ex::or(call(0), k(2))),
+        ],
+        ext: vec![0],
+        root0: None,
+    }
+}
+
+/// a -> b -> c -> a
+pub fn cyc3(kind: Kind) -> Program {
+    Program {
+        name: format!("cyc3-{kind:?}"),
+        cells: vec![(1, Dur::Low), (0, Dur::Low)],
+        nodes: vec![
+            NodeDef::new(kind, Ex::or(call(1), cell(0))),
+            NodeDef::new(kind, Ex::or(call(2), k(2))),
+            NodeDef::new(kind, Ex::or(call(0), k(4))),
+        ],
+        ext: vec![0],
+        root0: None,
+    }
+}
+
+/// nested: a <-> b <-> c
+pub fn nested3(kind: Kind) -> Program {
+    Program {
+        name: format!("nested3-{kind:?}"),
+        cells: vec![(1, Dur::Low), (0, Dur::Low)],
+        nodes: vec![
+            NodeDef::new(kind, Ex::or(call(1), cell(0))),
+            NodeDef::new(kind, Ex::or(Ex::or(call(0), call(2)), k(2))),
+            NodeDef::new(kind, Ex::or(call(1), k(4))),
+        ],
+        ext: vec![0],
+        root0: None,
+    }
+}
+
+/// conditional cycle: the back edge exists only while cell 1 != 0; plain caller on top
+pub fn cond_cycle(kind: Kind) -> Program {
+    Program {
+        name: format!("condcyc-{kind:?}"),
+        cells: vec![(1, Dur::Low), (1, Dur::Low)],
+        nodes: vec![
+            NodeDef::new(kind, Ex::or(call(1), cell(0))),
+            NodeDef::new(kind, Ex::ifc(1, Ex::or(call(0), k(2)), k(4))),
+            NodeDef::new(Kind::Ev, Ex::add(call(0), call(1))),
+        ],
+        ext: vec![0],
+        root0: None,
+    }
+}
